@@ -317,7 +317,7 @@ func main() {
 		kind string // err | good | bad
 		id   int
 	}
-	nScripts := run.Scale(14, 60)
+	nScripts := run.Scale(18, 64)
 	goodSets := make([]*gcert, 4)
 	for i := range goodSets {
 		goodSets[i] = mkCert(fmt.Sprintf("set%d.example", i), nil)
@@ -383,8 +383,18 @@ func main() {
 			{{"good", 1}, {"bad", 1}, {"good", 1}},
 			{{"good2", 0}, {"bad", 2}, {"bad", 3}, {"good", 0}},
 		}
+		// one-shot sources (refresh = 0): the loop retries an unusable first load every
+		// second and returns only after the first publication
+		directedOnce := [][]step{
+			{{"bad", 0}, {"good", 0}, {"good", 1}},
+			{{"err", 0}, {"good", 1}},
+			{{"bad", 2}, {"err", 0}, {"good", 2}, {"good", 0}},
+			{{"good", 0}, {"good", 1}},
+		}
 		if si < len(directed) {
 			once, script = false, directed[si]
+		} else if si-len(directed) < len(directedOnce) {
+			once, script = true, directedOnce[si-len(directed)]
 		}
 		results[si] = wres{once: once, script: script}
 		wg.Add(1)
